@@ -21,9 +21,24 @@ MCPairs   == (SeqsUpTo({97, 98}, AB_H) \X SeqsUpTo({97, 98}, AB_N))
                \* multiplicative rolling hashes (x * 31 + y, x * 33 + y)
                \cup (SeqsUpTo({65, 66, 97, 98}, 4) \X SeqsUpTo({65, 66, 97, 98}, 2))
 
+\* long inputs: k false candidates (occurrences of the needle's first / last byte) before the real occurrence, for
+\* every small k and around 64 / 128 / 256; an occurrence beyond offset 255; needles of 256 and more bytes with a near
+\* miss in the second-to-last byte
+LongNeedle(k) == RepSeq(<<97, 98>>, k \div 2) \o (IF k % 2 = 1 THEN <<97>> ELSE <<>>)
+LongPairs == UNION {{ <<RepSeq(<<97>>, k) \o <<98>>, <<97, 98>>>>,                \* a^k b     / ab
+                      <<<<98>> \o RepSeq(<<97>>, k), <<98, 97>>>>,                \* b a^k     / ba
+                      <<RepSeq(<<97, 99>>, k) \o <<97, 98>>, <<97, 98>>>>,        \* (ac)^k ab / ab
+                      <<<<98, 97>> \o RepSeq(<<99, 97>>, k), <<98, 97>>>>,        \* ba (ca)^k / ba
+                      <<RepSeq(<<98>>, k) \o <<97>>, <<97>>>> } : k \in RepCounts}
+               \cup UNION {{ <<<<99>> \o LongNeedle(k) \o <<99>>, LongNeedle(k)>>,
+                             <<[LongNeedle(k) EXCEPT ![k - 1] = 99] \o LongNeedle(k), LongNeedle(k)>>,
+                             <<LongNeedle(k) \o [LongNeedle(k) EXCEPT ![k - 1] = 99], LongNeedle(k)>>,
+                             <<[LongNeedle(k) EXCEPT ![k - 1] = 99], LongNeedle(k)>> } : k \in {12, 13, 255, 256, 257}}
+MCPairsL  == MCPairs \cup LongPairs
+
 Vec(o, hh, nn) == [m |-> "Matcher", op |-> o, h |-> hh, n |-> nn, exp |-> Ref(o, hh, nn)]
 \* one file per operation (TLC limits a set to 10^6 elements); keys are homogeneous tuples
-EmitOp(o) == LET ks == SetToSeq({p \in MCPairs : Specified(o, p[1], p[2])}) IN
+EmitOp(o) == LET ks == SetToSeq({p \in MCPairsL : Specified(o, p[1], p[2])}) IN
              ndJsonSerialize(IOEnv.OUT \o "-" \o o \o ".ndjson", [q \in 1..Len(ks) |-> Vec(o, ks[q][1], ks[q][2])])
 Emit == \A o \in Ops : EmitOp(o)
 =============================================================================
